@@ -89,6 +89,10 @@ def run_case(case, acc, tier):
                 ref_stamps[n._vid] = n
         live, _ = astsem.live_statements(ref_tree)
         live_vids = {vid for vid, n in ref_stamps.items() if id(n) in live}
+        for n in ast.walk(ref_tree):
+            if isinstance(n, (ast.If, ast.While)) and id(n) in live \
+                    and getattr(n.test, "_vid", None) is not None:
+                live_vids.add(n.test._vid)
         st = census_with(astcfg, stamps, live_vids)
         acc.counters["census_statements"] += st["stmts"]
         acc.counters["census_dead_statements"] += st["dead"]
@@ -128,6 +132,11 @@ def census_with(astcfg, stamps, live_vids):
             vid = getattr(ins, "_vid", None)
             if vid is not None:
                 where.setdefault(vid, []).append(("block", k))
+            if isinstance(ins, ast.Expr):
+                # a test that lost its branch is kept as an expression statement
+                vid = getattr(ins.value, "_vid", None)
+                if vid is not None and getattr(ins, "_vid", None) is None:
+                    where.setdefault(vid, []).append(("block", k))
         for t in b.jump_targets:
             if t not in astcfg:
                 raise Viol("C08", "jump_target_names_no_block", (k, t))
@@ -138,6 +147,9 @@ def census_with(astcfg, stamps, live_vids):
             vid = getattr(ins, "_vid", None)
             if vid is not None:
                 where.setdefault(vid, []).append(("unreachable", b.name))
+            if isinstance(ins, ast.Expr) and getattr(ins.value, "_vid", None) is not None \
+                    and getattr(ins, "_vid", None) is None:
+                where.setdefault(ins.value._vid, []).append(("unreachable", b.name))
     stats = {"stmts": 0, "dead": 0}
     for vid, (kind, node) in stamps.items():
         if kind == "noop":
